@@ -1205,6 +1205,7 @@ fn show_stats(st: &Option<Rc<Stats>>) -> String {
 ///   wf-tape | wf-slice | wf-reader:<n>:<s>   BinaryDeserializerBuilder::with_flavor
 ///   ref-tape | ref-slice                      BinaryFlavor::deserializer() (flavor = &Fl) + on_failed_resolve
 ///   box-slice | box-tape                      flavor = Box<Fl>
+///   res-ref-slice | res-box-slice | res-box-tape   resolver behind & / Box<dyn TokenResolver>
 fn run_entry(variant: &str, strat: FailedResolveStrategy, res: &Res, fl: Fl, data: &[u8]) -> String {
     use jomini::binary::de::BinaryDeserializerBuilder;
     let show2 = |a: Result<DynValue, jomini::Error>, b: Result<DynValue, jomini::Error>| format!("{} ;; {}", show_result(a), show_result(b));
@@ -1276,6 +1277,27 @@ fn run_entry(variant: &str, strat: FailedResolveStrategy, res: &Res, fl: Fl, dat
             let mut b = fl.deserializer();
             b.on_failed_resolve(strat);
             show_result(b.deserialize_slice::<_, DynValue>(data, res))
+        }
+        // `impl TokenResolver for &T` / `Box<T>`
+        "res-ref-slice" => {
+            let mut b = BinaryDeserializer::builder_flavor(fl);
+            b.on_failed_resolve(strat);
+            let rr: &Res = res;
+            show_result(b.deserialize_slice::<&Res, DynValue>(data, &rr))
+        }
+        "res-box-slice" | "res-box-tape" => {
+            let mut b = BinaryDeserializer::builder_flavor(fl);
+            b.on_failed_resolve(strat);
+            let boxed: Box<dyn TokenResolver + '_> = Box::new(res);
+            if variant == "res-box-slice" {
+                show_result(b.deserialize_slice::<Box<dyn TokenResolver + '_>, DynValue>(data, &boxed))
+            } else {
+                let tape = match BinaryTape::from_slice(data) {
+                    Ok(t) => t,
+                    Err(e) => return err_class(&e),
+                };
+                show_result(b.deserialize_tape::<Box<dyn TokenResolver + '_>, DynValue>(&tape, &boxed))
+            }
         }
         _ => {
             if let Some(rest) = variant.strip_prefix("reader-from2:") {
